@@ -282,7 +282,7 @@ inline void genDefinition(pbt::Ctx& c, Item& it, const std::vector<detail::P>& p
     }
   };
   if (correct) { it.def = goodDef(); return; }
-  const int fam = c.ipick(0, 5);
+  const int fam = c.ipick(0, 7);
   const bool isStmt = it.type == CstType::axiom || it.type == CstType::theorem;
   const bool isFunc = it.type == CstType::function;
   static const char* missing[] = {"X9", "D8", "S7", "X3"};  // X3 may or may not exist
@@ -301,7 +301,12 @@ inline void genDefinition(pbt::Ctx& c, Item& it, const std::vector<detail::P>& p
       it.def = isStmt ? l + "=" + a.alias : isFunc ? "[a∈ℬ(" + a.b1 + ")] a∪" + l : l + "∪" + a.alias;
       break;
     }
-    default: it.def.clear(); break;
+    case 5: it.def.clear(); break;
+    default: {  // a token the lexer cannot classify in the MIDDLE of the definition: the mentions after it are mentions all the same
+      static const char* junk[] = {" # ", "\xE2\x88\xAA{99999999999}\xE2\x88\xAA", " ? ", " \xD0\x96 ", "\xE2\x88\xAApr0(", " $"};
+      it.def = a.alias + junk[c.ipick(0, 5)] + b.alias + (fam == 7 ? "\xE2\x88\xAA" + a.alias : "");
+      break;
+    }
   }
   it.sort = 0;
 }
